@@ -1,6 +1,6 @@
 from engine.h4v import H, libhdf_units, libmfhdf_units
 META = {}
 def plan(ctx, tier, seed):
-    lower = ["mfhdf/src/putget.c", "mfhdf/src/var.c", "mfhdf/src/array.c", "mfhdf/src/putgetg.c", "mfhdf/src/mfsd.c", "mfhdf/src/cdf.c", "/tmp/cdfdbg/mfhdf/src/cdf.c", "mfhdf/src/attr.c", "mfhdf/src/dim.c"]
-    return [H("probe.sdreopen", "probe", src="harness/probe/sd_reopen_dbg.c", units=libhdf_units() + [("/tmp/cdfdbg/mfhdf/src/cdf.c" if u.endswith("/cdf.c") and __import__("os").path.exists("/tmp/cdfdbg/mfhdf/src/cdf.c") else u) for u in libmfhdf_units()], models=["memio", "herr", "memloops", "printf"],
+    lower = ["mfhdf/src/putget.c", "mfhdf/src/var.c", "mfhdf/src/array.c", "mfhdf/src/putgetg.c", "mfhdf/src/mfsd.c", "mfhdf/src/cdf.c", "/tmp/cdfdbg/mfhdf/src/cdf.c", "/tmp/cdfdbg/mfhdf/src/var.c", "mfhdf/src/attr.c", "mfhdf/src/dim.c"]
+    return [H("probe.sdreopen", "probe", src="harness/probe/sd_reopen_dbg.c", units=libhdf_units() + [("/tmp/cdfdbg/" + u if (u.endswith("/cdf.c") or u.endswith("/var.c")) and __import__("os").path.exists("/tmp/cdfdbg/mfhdf/src/cdf.c") else u) for u in libmfhdf_units()], models=["memio", "herr", "memloops", "printf"],
               defs={"MEMIO_DISK_SZ": 8192}, unwind=5000, kind="S", timeout=2400, mf=True, lower=lower, symbolic="16 bytes")]
